@@ -142,6 +142,7 @@ func (w *World) learn(sets []map[string]string) error {
 	deadline := time.Now().Add(5 * time.Second)
 	for {
 		w.W.Settle()
+		w.W.Settle()
 		res, err := w.W.Store.DB.Query("SELECT fingerprint, labels, name FROM time_series")
 		if err != nil {
 			return err
